@@ -3,18 +3,202 @@
 package wallet
 
 import (
+	"context"
 	"crypto/ed25519"
+	"time"
 
+	"github.com/tonkeeper/tongo/boc"
+	"github.com/tonkeeper/tongo/tlb"
 	"github.com/tonkeeper/tongo/zzvrt"
 )
 
-func vArbPublicKey(name string) ed25519.PublicKey {
-	return ed25519.PublicKey(zzvrt.NondetBytes(name, 32))
+// vSpecData writes the data cell the published wallet code expects for a fresh wallet
+// (seqno 0, sub-wallet / wallet id, public key, empty dictionaries), straight from the contracts' layout.
+func vSpecData(ver Version, pub ed25519.PublicKey, wc int, sub uint32, net int32) *boc.Cell {
+	c := boc.NewCell()
+	switch ver {
+	case V3R1, V3R2:
+		_ = c.WriteUint(0, 32)
+		_ = c.WriteUint(uint64(sub), 32)
+		_ = c.WriteBytes(pub)
+	case V4R1, V4R2:
+		_ = c.WriteUint(0, 32)
+		_ = c.WriteUint(uint64(sub), 32)
+		_ = c.WriteBytes(pub)
+		_ = c.WriteBit(false)
+	case V5R1:
+		_ = c.WriteBit(true) // signature allowed
+		_ = c.WriteUint(0, 32)
+		// wallet id = context id (1 | workchain:8 | version 0:8 | subwallet 0:15) XOR network id
+		ctxID := uint32(1)<<31 | uint32(uint8(wc))<<23
+		_ = c.WriteUint(uint64(ctxID^uint32(net)), 32)
+		_ = c.WriteBytes(pub)
+		_ = c.WriteBit(false)
+	case V5Beta:
+		_ = c.WriteUint(0, 33)
+		_ = c.WriteUint(uint64(uint32(net)), 32)
+		_ = c.WriteUint(uint64(uint8(wc)), 8)
+		_ = c.WriteUint(0, 8)
+		_ = c.WriteUint(uint64(sub), 32)
+		_ = c.WriteBytes(pub)
+		_ = c.WriteBit(false)
+	case HighLoadV2R2:
+		_ = c.WriteUint(uint64(sub), 32)
+		_ = c.WriteUint(0, 64)
+		_ = c.WriteBytes(pub)
+		_ = c.WriteBit(false)
+	}
+	return c
 }
 
-func VH_C15_smoke() {
-	pk := vArbPublicKey("pk")
-	a, err := GenerateWalletAddress(pk, V3R2, nil, 0, nil)
-	zzvrt.Assert("ok", err == nil)
-	zzvrt.Cover("ok", err == nil && a.Workchain == 0)
+func vEq32b(x, y []byte) bool {
+	same := zzvrt.And(len(x) == 32, len(y) == 32)
+	for b := 0; b < 32; b++ {
+		same = zzvrt.And(same, x[b] == y[b])
+	}
+	return same
+}
+
+// The wallet address is the representation hash of (published code for the version, data with zero
+// seqno / ids / key) in the requested workchain -- identical through New().GetAddress,
+// GenerateWalletAddress and the hash of GenerateStateInit -- and different when key or ids differ.
+func VH_C15_address(ver int) {
+	v := Version(ver)
+	priv := ed25519.NewKeyFromSeed(zzvrt.NondetBytes("seed", 32))
+	pub := priv.Public().(ed25519.PublicKey)
+	wc := int(int8(zzvrt.NondetByte("wc")))
+	sub := zzvrt.NondetU32("subwallet")
+	net := zzvrt.NondetI32("network")
+	w, err := New(priv, v, nil, WithWorkchain(wc), WithSubWalletID(sub), WithNetworkGlobalID(net))
+	zzvrt.Assert("wallet-created", err == nil)
+	a1 := w.GetAddress()
+	a2, err := GenerateWalletAddress(pub, v, &net, wc, &sub)
+	zzvrt.Assert("generate-ok", err == nil)
+	zzvrt.Assert("same-through-both-apis", a1.Workchain == a2.Workchain && a1.Address == a2.Address)
+	zzvrt.Assert("workchain", a1.Workchain == int32(wc))
+	// specification: StateInit = no split depth, no special, code ref, data ref, no libraries
+	spec := boc.NewCell()
+	_ = spec.WriteUint(0b00110, 5)
+	_ = spec.AddRef(GetCodeByVer(v))
+	_ = spec.AddRef(vSpecData(v, pub, wc, sub, net))
+	want, herr := spec.Hash()
+	zzvrt.Assert("spec-hash-ok", herr == nil)
+	zzvrt.Assert("address-is-hash-of-initial-state", vEq32b(a1.Address[:], want))
+	si, err := GenerateStateInit(pub, v, &net, wc, &sub)
+	zzvrt.Assert("stateinit-ok", err == nil)
+	sc := boc.NewCell()
+	zzvrt.Assert("stateinit-marshals", tlb.Marshal(sc, si) == nil)
+	h3, _ := sc.Hash()
+	zzvrt.Assert("stateinit-hash-is-address", vEq32b(h3, want))
+	// published code: the code cell is the one whose hash identifies the version
+	ch, _ := GetCodeByVer(v).Hash256()
+	zzvrt.Assert("code-is-the-published-one", GetCodeHashByVer(v) == tlb.Bits256(ch))
+	// a different key or sub-wallet id (where the version has one) gives a different address
+	seed2 := zzvrt.NondetBytes("seed2", 32)
+	priv2 := ed25519.NewKeyFromSeed(seed2)
+	pub2 := priv2.Public().(ed25519.PublicKey)
+	keyDiffers := false
+	for i := 0; i < 32; i++ {
+		keyDiffers = zzvrt.Or(keyDiffers, pub2[i] != pub[i])
+	}
+	sub2 := zzvrt.NondetU32("subwallet2")
+	a3, err := GenerateWalletAddress(pub2, v, &net, wc, &sub2)
+	zzvrt.Assert("generate2-ok", err == nil)
+	usesSub := v != V5R1
+	zzvrt.Assume(zzvrt.Or(keyDiffers, zzvrt.And(usesSub, sub2 != sub)))
+	zzvrt.Assert("different-parameters-different-address", a3.Address != a1.Address)
+	zzvrt.Cover("negative-workchain", wc < 0)
+	zzvrt.ObserveInt("wc", int(a1.Workchain))
+}
+
+// NextMessageParams: an active account gives the stored seqno and no init; a non-existent or
+// uninitialised account gives seqno 0 and the wallet's own initial state.
+func VH_C15_nextparams(ver int, status int) {
+	v := Version(ver)
+	priv := ed25519.NewKeyFromSeed(zzvrt.NondetBytes("seed", 32))
+	pub := priv.Public().(ed25519.PublicKey)
+	sub := zzvrt.NondetU32("subwallet")
+	w, err := New(priv, v, nil, WithSubWalletID(sub))
+	zzvrt.Assert("wallet-created", err == nil)
+	var st tlb.ShardAccount
+	seq := zzvrt.NondetU32("stored-seqno")
+	switch status {
+	case 0:
+		st.Account.SumType = "AccountNone"
+	case 1:
+		st.Account.SumType = "Account"
+		st.Account.Account.Storage.State.SumType = "AccountUninit"
+	case 2:
+		st.Account.SumType = "Account"
+		st.Account.Account.Storage.State.SumType = "AccountActive"
+		data := vSpecData(v, pub, 0, sub, MainnetGlobalID)
+		// overwrite the seqno field of the data layout with the stored seqno
+		d2 := boc.NewCell()
+		switch v {
+		case V3R1, V3R2, V4R1, V4R2:
+			_ = d2.WriteUint(uint64(seq), 32)
+			_ = data.Skip(32)
+		case V5R1:
+			_ = d2.WriteBit(true)
+			_ = d2.WriteUint(uint64(seq), 32)
+			_ = data.Skip(33)
+		case V5Beta:
+			_ = d2.WriteUint(uint64(seq), 33)
+			_ = data.Skip(33)
+		}
+		rest := data.ReadRemainingBits()
+		_ = d2.WriteBitString(rest)
+		st.Account.Account.Storage.State.AccountActive.StateInit.Data.Exists = true
+		st.Account.Account.Storage.State.AccountActive.StateInit.Data.Value.Value = *d2
+	}
+	p, err := w.intWallet.NextMessageParams(st)
+	zzvrt.Assert("params-ok", err == nil)
+	if status == 2 {
+		zzvrt.Assert("active-uses-stored-seqno", p.Seqno == seq)
+		zzvrt.Assert("active-no-init", p.Init == nil)
+	} else {
+		zzvrt.Assert("fresh-seqno-zero", p.Seqno == 0)
+		zzvrt.Assert("fresh-has-init", p.Init != nil)
+		if p.Init != nil {
+			sc := boc.NewCell()
+			zzvrt.Assert("init-marshals", tlb.Marshal(sc, *p.Init) == nil)
+			h, _ := sc.Hash()
+			addr := w.GetAddress()
+			zzvrt.Assert("init-hashes-to-own-address", vEq32b(h, addr.Address[:]))
+		}
+	}
+	zzvrt.Cover("reached", true)
+	zzvrt.ObserveInt("seqno", int(p.Seqno))
+}
+
+// RawSendV2 with confirmation: scripted answers of GetSeqno (error / seqno) and a symbolic clock.
+// Success iff some poll before the deadline reports, without error, a seqno above the one sent.
+func VH_C15_confirm(ver int) {
+	v := Version(ver)
+	priv := ed25519.NewKeyFromSeed(zzvrt.NondetBytes("seed", 32))
+	chain := &vChain{}
+	for i := 0; i < 12; i++ {
+		chain.seqnos[i] = zzvrt.NondetU32("poll-seqno")
+		chain.errs[i] = zzvrt.NondetBool("poll-err")
+	}
+	w, err := New(priv, v, chain)
+	zzvrt.Assert("wallet-created", err == nil)
+	seqno := zzvrt.NondetU32("seqno")
+	_, err = w.RawSendV2(context.Background(), seqno, time.Unix(100, 0), nil, nil, 2*time.Second)
+	zzvrt.Assert("sent", len(chain.sent) == 1)
+	advanced := false
+	zzvrt.Assert("polls-bounded", chain.polls <= 11)
+	for i := 0; i < 12; i++ {
+		if i < chain.polls {
+			advanced = zzvrt.Or(advanced, zzvrt.And(!chain.errs[i], chain.seqnos[i] > seqno))
+		}
+	}
+	if err == nil {
+		zzvrt.Assert("success-only-if-seqno-advanced", advanced)
+	} else {
+		zzvrt.Assert("error-only-if-no-poll-saw-the-seqno-advance", !advanced)
+	}
+	zzvrt.Cover("confirmed", err == nil)
+	zzvrt.Cover("timed-out", err != nil && chain.polls >= 1)
+	zzvrt.ObserveBool("err", err != nil)
 }
